@@ -522,4 +522,807 @@ theorem marshalElems_eq_render (cfg : EncCfg) : ∀ (kvs : Entries), PlainEntrie
         cases encTree cfg k v <;> cases encElems cfg rest <;> simp [Except.map]
 end
 
+
+/-! ### `Plain` is invariant under normalisation -/
+
+def plainEntry (cfg : EncCfg) (e : Str × Val) : Bool :=
+  nullTextOk cfg e.1 e.2 && Plain cfg e.2
+
+theorem PlainEntries_iff (cfg : EncCfg) : ∀ (l : Entries),
+    PlainEntries cfg l = true ↔ ∀ e ∈ l, plainEntry cfg e = true
+  | [] => by simp [PlainEntries]
+  | (k, v) :: rest => by
+      simp only [PlainEntries, Bool.and_eq_true, PlainEntries_iff cfg rest, List.mem_cons,
+        forall_eq_or_imp, plainEntry]
+
+mutual
+theorem Plain_norm (cfg : EncCfg) : ∀ (v : Val), Plain cfg v = true → Plain cfg v.norm = true
+  | .null, _ => rfl
+  | .bool _, _ => rfl
+  | .num _, h => h
+  | .str _, _ => rfl
+  | .list xs, h => by
+      simp only [Plain] at h
+      simp only [Val.norm, Plain, PlainList_norm cfg xs h]
+  | .map kvs, h => by
+      simp only [Plain] at h
+      simp only [Val.norm, Plain]
+      rw [PlainEntries_iff]
+      intro e he
+      exact (PlainEntries_iff cfg _).1 (PlainEntries_norm cfg kvs h) e ((sortByKey_perm _).mem_iff.1 he)
+theorem PlainList_norm (cfg : EncCfg) : ∀ (xs : List Val), PlainList cfg xs = true →
+    PlainList cfg (Val.normList xs) = true
+  | [], _ => rfl
+  | x :: xs, h => by
+      simp only [PlainList, Bool.and_eq_true] at h
+      simp only [Val.normList, PlainList, Plain_norm cfg x h.1, PlainList_norm cfg xs h.2, Bool.and_self]
+theorem PlainEntries_norm (cfg : EncCfg) : ∀ (kvs : Entries), PlainEntries cfg kvs = true →
+    PlainEntries cfg (Val.normEntries kvs) = true
+  | [], _ => rfl
+  | (k, v) :: rest, h => by
+      simp only [PlainEntries, Bool.and_eq_true] at h
+      simp only [Val.normEntries, PlainEntries, Bool.and_eq_true]
+      refine ⟨⟨?_, Plain_norm cfg v h.1.2⟩, PlainEntries_norm cfg rest h.2⟩
+      have := h.1.1
+      cases v <;> simp_all [Val.norm, nullTextOk]
+end
+
+
+/-! ### the default configurations -/
+
+theorem elemKey_dc (S : Strconv) (n : Str) : elemKey dc S n = n := rfl
+theorem attrKey_dc (S : Strconv) (n : Str) : attrKey dc S n = '-' :: n := rfl
+theorem escDecIf_dc (s : Str) : escDecIf dc s = s := rfl
+theorem cast_dc (S : Strconv) (s t : Str) : cast S dc.cast s t = .str s := by
+  unfold cast; simp [dc]
+theorem seqDecorate_dc (seq : Nat) (v : Val) : seqDecorate dc seq v = (v, seq) := rfl
+theorem textOf_dc (s : Str) : Conv.textOf dc s = trimD s := rfl
+theorem textK_ec : ec.textK = "#text".toList := rfl
+theorem textK_dc : dc.textK = ec.textK := rfl
+
+theorem isAttrK_ec_iff (k : Str) : isAttrK ec k = true ↔ ∃ c r, k = '-' :: c :: r := by
+  unfold isAttrK
+  simp only [ec]
+  constructor
+  · intro h
+    match k, h with
+    | [], h => simp at h
+    | [_], h => simp at h
+    | a :: c :: r, h =>
+      simp at h
+      exact ⟨c, r, by rw [h]⟩
+  · rintro ⟨c, r, rfl⟩
+    simp
+
+theorem isAttrK_ec_cons (k : Str) (h : isAttrK ec k = true) : '-' :: k.drop 1 = k := by
+  obtain ⟨c, r, rfl⟩ := (isAttrK_ec_iff k).1 h
+  rfl
+
+theorem textK_not_attr : isAttrK ec ec.textK = false := by decide
+
+
+/-! ### association lists -/
+
+theorem mem_keys {k : Str} {l : Entries} : k ∈ keys l ↔ ∃ e ∈ l, e.1 = k := by
+  unfold keys; simp [List.mem_map]
+
+theorem keys_append (a b : Entries) : keys (a ++ b) = keys a ++ keys b := by
+  unfold keys; simp
+
+theorem keys_cons (e : Str × Val) (l : Entries) : keys (e :: l) = e.1 :: keys l := rfl
+
+theorem lookup_eq_none_iff (k : Str) : ∀ (l : Entries), lookup k l = none ↔ k ∉ keys l
+  | [] => by simp [lookup, keys]
+  | (k', v) :: rest => by
+      have ih := lookup_eq_none_iff k rest
+      simp only [lookup, keys_cons, List.mem_cons, not_or]
+      split
+      · rename_i e; simp [e]
+      · rename_i e; simp [e, ih]
+
+theorem insert_of_not_mem (k : Str) (v : Val) : ∀ (l : Entries), k ∉ keys l →
+    insert k v l = l ++ [(k, v)]
+  | [], _ => rfl
+  | (k', v') :: rest, h => by
+      simp only [keys_cons, List.mem_cons, not_or] at h
+      simp only [insert, h.1, if_false, insert_of_not_mem k v rest h.2, List.cons_append]
+
+/-! ### `Conv.groupOnto` on the encoder's sibling sequences: exact computation -/
+
+def valsOf (k : Str) (cs : List (Str × Val)) : List Val := (cs.filter (·.1 = k)).map (·.2)
+
+/-- one step of `groupOnto` -/
+def gStep (cs : List (Str × Val)) (b : Entries) (k : Str) : Entries :=
+  match Conv.collect (lookup k b) (valsOf k cs) with
+  | some val => insert k val b
+  | none => b
+
+theorem groupOnto_eq (base : Entries) (cs : List (Str × Val)) :
+    Conv.groupOnto base cs = ((cs.map (·.1)).eraseDups).foldl (gStep cs) base := rfl
+
+theorem foldl_gStep_congr (cs cs' : List (Str × Val)) : ∀ (ks : List Str) (b : Entries),
+    (∀ q ∈ ks, valsOf q cs = valsOf q cs') → ks.foldl (gStep cs) b = ks.foldl (gStep cs') b
+  | [], _, _ => rfl
+  | k :: ks, b, h => by
+      have h1 : gStep cs b k = gStep cs' b k := by
+        unfold gStep; rw [h k (List.mem_cons_self ..)]
+      rw [List.foldl_cons, List.foldl_cons, h1]
+      exact foldl_gStep_congr cs cs' ks _ (fun q hq => h q (List.mem_cons_of_mem _ hq))
+
+theorem collect_none (vs : List Val) (h : vs ≠ []) : Conv.collect none vs = some (collectV vs) := by
+  match vs, h with
+  | [_], _ => rfl
+  | _ :: _ :: _, _ => rfl
+
+theorem valsOf_block_self (k : Str) (sibs : List Val) (rest : List (Str × Val))
+    (hr : k ∉ keys rest) : valsOf k (sibs.map (k, ·) ++ rest) = sibs := by
+  unfold valsOf
+  rw [List.filter_append, List.map_append]
+  have h1 : (sibs.map (fun x => (k, x))).filter (fun e => decide (e.1 = k)) = sibs.map (k, ·) := by
+    rw [List.filter_eq_self]; intro a ha
+    obtain ⟨x, _, rfl⟩ := List.mem_map.1 ha
+    simp
+  have h2 : rest.filter (fun e => decide (e.1 = k)) = [] := by
+    rw [List.filter_eq_nil_iff]; intro a ha e
+    exact hr (mem_keys.2 ⟨a, ha, of_decide_eq_true e⟩)
+  rw [h1, h2]; simp [Function.comp_def]
+
+theorem valsOf_block_other (k q : Str) (sibs : List Val) (rest : List (Str × Val))
+    (hq : q ≠ k) : valsOf q (sibs.map (k, ·) ++ rest) = valsOf q rest := by
+  unfold valsOf
+  rw [List.filter_append, List.map_append]
+  have h1 : (sibs.map (fun x => (k, x))).filter (fun e => decide (e.1 = q)) = [] := by
+    rw [List.filter_eq_nil_iff]; intro a ha e
+    obtain ⟨x, _, rfl⟩ := List.mem_map.1 ha
+    exact hq (of_decide_eq_true e).symm
+  rw [h1]; rfl
+
+theorem groupOnto_nil (base : Entries) : Conv.groupOnto base [] = base := rfl
+
+/-- a block of siblings with a fresh key is collected into one new entry at the end -/
+theorem groupOnto_block (base : Entries) (k : Str) (sibs : List Val) (rest : List (Str × Val))
+    (hs : sibs ≠ []) (hk : k ∉ keys base) (hr : k ∉ keys rest) :
+    Conv.groupOnto base (sibs.map (k, ·) ++ rest)
+      = Conv.groupOnto (base ++ [(k, collectV sibs)]) rest := by
+  obtain ⟨s, ss, rfl⟩ := List.exists_cons_of_ne_nil hs
+  rw [groupOnto_eq, groupOnto_eq]
+  have hkeys : (((s :: ss).map (k, ·) ++ rest).map (·.1)).eraseDups
+      = k :: (rest.map (·.1)).eraseDups := by
+    simp only [List.map_cons, List.cons_append, List.eraseDups_cons]
+    congr 1
+    congr 1
+    rw [List.map_append, List.filter_append]
+    have h1 : ((ss.map (fun x => (k, x))).map (·.1)).filter (fun b => !b == k) = [] := by
+      rw [List.filter_eq_nil_iff]; intro a ha
+      simp only [List.map_map, List.mem_map, Function.comp_def] at ha
+      obtain ⟨_, _, rfl⟩ := ha
+      simp
+    have h2 : (rest.map (·.1)).filter (fun b => !b == k) = rest.map (·.1) := by
+      rw [List.filter_eq_self]; intro a ha
+      have : a ≠ k := fun e => hr (by subst e; exact ha)
+      simp [this]
+    rw [h1, h2]; rfl
+  rw [hkeys, List.foldl_cons]
+  have hstep : gStep ((s :: ss).map (k, ·) ++ rest) base k = base ++ [(k, collectV (s :: ss))] := by
+    unfold gStep
+    rw [(lookup_eq_none_iff k base).2 hk, valsOf_block_self k _ rest hr,
+      collect_none _ (by simp)]
+    exact insert_of_not_mem k _ base hk
+  rw [hstep]
+  apply foldl_gStep_congr
+  intro q hq
+  rw [List.mem_eraseDups] at hq
+  apply valsOf_block_other
+  intro e; subst e; exact hr hq
+
+
+/-! ### the pieces of the image of a map -/
+
+/-- an entry that becomes child elements -/
+def isElemK (k : Str) : Bool := !(k = ec.textK || isAttrK ec k)
+
+/-- the `(key, value)` sequence the children of a map element decode to -/
+def elemPairs : Entries → List (Str × Val)
+  | [] => []
+  | (k, v) :: rest =>
+      if k = ec.textK || isAttrK ec k then elemPairs rest
+      else (imageSibs v).map (k, ·) ++ elemPairs rest
+
+mutual
+theorem imageSibs_ne_nil : ∀ (v : Val), imageSibs v ≠ []
+  | .null => by simp [imageSibs]
+  | .bool _ => by simp [imageSibs]
+  | .num _ => by simp [imageSibs]
+  | .str _ => by simp [imageSibs]
+  | .map _ => by simp [imageSibs]
+  | .list xs => by
+      simp only [imageSibs]
+      split
+      · simp
+      · rename_i h
+        exact imageMembers_ne_nil xs (by intro e; subst e; simp at h)
+theorem imageMembers_ne_nil : ∀ (xs : List Val), xs ≠ [] → imageMembers xs ≠ []
+  | [], h => absurd rfl h
+  | x :: xs, _ => by
+      simp only [imageMembers]
+      have := imageSibs_ne_nil x
+      simp [this]
+end
+
+theorem keys_imageAttrs_sub : ∀ (kvs : Entries) (q : Str), q ∈ keys (imageAttrs kvs) →
+    q ∈ keys kvs ∧ isAttrK ec q = true
+  | [], _, h => by simp [imageAttrs, keys] at h
+  | (k, v) :: rest, q, h => by
+      simp only [imageAttrs] at h
+      split at h
+      · rename_i ha
+        simp only [keys_cons, List.mem_cons] at h ⊢
+        rcases h with rfl | h
+        · exact ⟨.inl rfl, ha⟩
+        · exact ⟨.inr (keys_imageAttrs_sub rest q h).1, (keys_imageAttrs_sub rest q h).2⟩
+      · simp only [keys_cons, List.mem_cons]
+        exact ⟨.inr (keys_imageAttrs_sub rest q h).1, (keys_imageAttrs_sub rest q h).2⟩
+
+theorem keys_imageElems_sub : ∀ (kvs : Entries) (q : Str), q ∈ keys (imageElems kvs) →
+    q ∈ keys kvs ∧ isElemK q = true
+  | [], _, h => by simp [imageElems, keys] at h
+  | (k, v) :: rest, q, h => by
+      simp only [imageElems] at h
+      split at h
+      · simp only [keys_cons, List.mem_cons]
+        exact ⟨.inr (keys_imageElems_sub rest q h).1, (keys_imageElems_sub rest q h).2⟩
+      · rename_i ha
+        simp only [keys_cons, List.mem_cons] at h ⊢
+        rcases h with rfl | h
+        · exact ⟨.inl rfl, by unfold isElemK; simpa using ha⟩
+        · exact ⟨.inr (keys_imageElems_sub rest q h).1, (keys_imageElems_sub rest q h).2⟩
+
+theorem keys_elemPairs_sub : ∀ (kvs : Entries) (q : Str), q ∈ keys (elemPairs kvs) → q ∈ keys kvs
+  | [], _, h => by simp [elemPairs, keys] at h
+  | (k, v) :: rest, q, h => by
+      simp only [elemPairs] at h
+      simp only [keys_cons, List.mem_cons]
+      split at h
+      · exact .inr (keys_elemPairs_sub rest q h)
+      · rw [keys_append, List.mem_append] at h
+        rcases h with h | h
+        · left
+          obtain ⟨e, he, rfl⟩ := mem_keys.1 h
+          obtain ⟨_, _, rfl⟩ := List.mem_map.1 he
+          rfl
+        · exact .inr (keys_elemPairs_sub rest q h)
+
+/-- grouping the children of a map element: one entry per element key, in entry order -/
+theorem groupOnto_elemPairs : ∀ (kvs : Entries) (base : Entries), (keys kvs).Nodup →
+    (∀ q ∈ keys kvs, isElemK q = true → q ∉ keys base) →
+    Conv.groupOnto base (elemPairs kvs) = base ++ imageElems kvs
+  | [], base, _, _ => by simp [elemPairs, imageElems, groupOnto_nil]
+  | (k, v) :: rest, base, hd, hb => by
+      simp only [keys_cons, List.nodup_cons] at hd
+      have hb' : ∀ q ∈ keys rest, isElemK q = true → q ∉ keys base :=
+        fun q hq => hb q (List.mem_cons_of_mem _ hq)
+      simp only [elemPairs, imageElems]
+      split
+      · exact groupOnto_elemPairs rest base hd.2 hb'
+      · rename_i hk
+        have hk' : isElemK k = true := by unfold isElemK; simpa using hk
+        rw [groupOnto_block base k _ _ (imageSibs_ne_nil v) (hb k (List.mem_cons_self ..) hk')
+          (fun h => hd.1 (keys_elemPairs_sub rest k h))]
+        rw [groupOnto_elemPairs rest _ hd.2, List.append_assoc]
+        · rfl
+        · intro q hq he
+          rw [keys_append, List.mem_append, not_or]
+          refine ⟨hb' q hq he, ?_⟩
+          simp only [keys, List.map_cons, List.map_nil, List.mem_singleton]
+          intro e; subst e; exact hd.1 hq
+
+/-! ### attributes -/
+
+theorem loadAttrs_eq (S : Strconv) (attrs : List Attr) :
+    loadAttrs dc S attrs
+      = attrs.foldl (fun na a => insert ('-' :: a.name) (.str a.value) na) [] := by
+  unfold loadAttrs
+  congr 1
+
+theorem foldl_insert_fresh : ∀ (attrs : List Attr) (acc : Entries),
+    (keys acc ++ attrs.map (fun a => '-' :: a.name)).Nodup →
+    attrs.foldl (fun na a => insert ('-' :: a.name) (.str a.value) na) acc
+      = acc ++ attrs.map (fun a => ('-' :: a.name, Val.str a.value))
+  | [], acc, _ => by simp
+  | a :: as, acc, h => by
+      have hk : ('-' :: a.name) ∉ keys acc := by
+        intro hm
+        have := (List.nodup_append.1 h).2.2 _ hm _ (List.mem_map.2 ⟨a, List.mem_cons_self .., rfl⟩)
+        exact this rfl
+      rw [List.foldl_cons, insert_of_not_mem _ _ _ hk, foldl_insert_fresh as]
+      · simp
+      · rw [keys_append]
+        simp only [keys, List.map_nil, List.map_cons, List.append_assoc,
+          List.singleton_append] at h ⊢
+        exact h
+
+/-- decoding the encoder's attributes gives back the attribute entries, as strings -/
+theorem encAttrs_image : ∀ (kvs : Entries) (attrs : List Attr), encAttrs ec kvs = .ok attrs →
+    attrs.map (fun a => ('-' :: a.name, Val.str a.value)) = imageAttrs kvs
+  | [], attrs, h => by
+      simp only [encAttrs, Except.ok.injEq] at h; subst h; rfl
+  | (k, v) :: rest, attrs, h => by
+      simp only [encAttrs] at h
+      simp only [imageAttrs]
+      split at h
+      · rename_i ha
+        simp only [ha, if_true]
+        cases hA : encAttr ec k v with
+        | error e => rw [hA] at h; simp at h
+        | ok a =>
+          cases hR : encAttrs ec rest with
+          | error e => rw [hA, hR] at h; simp at h
+          | ok r =>
+            rw [hA, hR] at h
+            simp only [Except.ok.injEq] at h
+            subst h
+            unfold encAttr at hA
+            cases hv : attrValue v with
+            | none => rw [hv] at hA; simp at hA
+            | some s =>
+              rw [hv] at hA
+              simp only [Except.ok.injEq] at hA
+              subst hA
+              simp only [List.map_cons, Option.getD_some, encAttrs_image rest r hR]
+              congr 2
+              exact isAttrK_ec_cons k ha
+      · rename_i ha
+        simp only [ha, Bool.false_eq_true, if_false]
+        exact encAttrs_image rest attrs h
+
+theorem nodup_keys_imageAttrs (kvs : Entries) (hd : (keys kvs).Nodup) : (keys (imageAttrs kvs)).Nodup := by
+  induction kvs with
+  | nil => simp [imageAttrs, keys]
+  | cons e rest ih =>
+    obtain ⟨k, v⟩ := e
+    simp only [keys_cons, List.nodup_cons] at hd
+    simp only [imageAttrs]
+    split
+    · simp only [keys_cons, List.nodup_cons]
+      exact ⟨fun h => hd.1 (keys_imageAttrs_sub rest k h).1, ih hd.2⟩
+    · exact ih hd.2
+
+theorem loadAttrs_encAttrs (S : Strconv) (kvs : Entries) (attrs : List Attr)
+    (hd : (keys kvs).Nodup) (h : encAttrs ec kvs = .ok attrs) :
+    loadAttrs dc S attrs = imageAttrs kvs := by
+  have hi := encAttrs_image kvs attrs h
+  rw [loadAttrs_eq, foldl_insert_fresh attrs []]
+  · simpa using hi
+  · have := nodup_keys_imageAttrs kvs hd
+    rw [← hi] at this
+    simpa [keys, Function.comp_def] using this
+
+
+/-! ### `Conv.value` unfolded -/
+
+theorem value_elem_nil (cfg : DecCfg) (S : Strconv) (sp name : Str) (attrs : List Attr)
+    (kids : List Node)
+    (h : Conv.textRuns cfg (!(loadAttrs cfg S attrs).isEmpty || cfg.asMap) kids = []) :
+    Conv.value cfg S (.elem sp name attrs kids) =
+      if (Conv.groupOnto (loadAttrs cfg S attrs) (Conv.childVals cfg S 0 kids)).isEmpty
+      then .str [] else .map (Conv.groupOnto (loadAttrs cfg S attrs) (Conv.childVals cfg S 0 kids)) := by
+  simp only [Conv.value, h]
+
+theorem value_elem_cons (cfg : DecCfg) (S : Strconv) (sp name : Str) (attrs : List Attr)
+    (kids : List Node) (t : Conv.TextRun) (r : List Conv.TextRun)
+    (h : Conv.textRuns cfg (!(loadAttrs cfg S attrs).isEmpty || cfg.asMap) kids = t :: r) :
+    Conv.value cfg S (.elem sp name attrs kids) =
+      if t.early then
+        if (Conv.groupOnto (loadAttrs cfg S attrs) (Conv.childVals cfg S 0 kids)).isEmpty
+        then cast S cfg.cast t.value (elemKey cfg S name)
+        else .map (insert cfg.textK (cast S cfg.cast t.value (elemKey cfg S name))
+              (Conv.groupOnto (loadAttrs cfg S attrs) (Conv.childVals cfg S 0 kids)))
+      else .map (insert cfg.textK (cast S cfg.cast t.value cfg.textK)
+              (Conv.groupOnto (loadAttrs cfg S attrs) (Conv.childVals cfg S 0 kids))) := by
+  simp only [Conv.value, h]
+
+/-! ### shape of the encoder's trees -/
+
+def isElem : Node → Bool
+  | .elem .. => true
+  | _ => false
+
+theorem childVals_append (S : Strconv) : ∀ (a b : List Node) (seq : Nat),
+    Conv.childVals dc S seq (a ++ b) = Conv.childVals dc S seq a ++ Conv.childVals dc S seq b
+  | [], _, _ => by simp [Conv.childVals]
+  | n :: a, b, seq => by
+      cases n <;>
+        simp only [List.cons_append, Conv.childVals, seqDecorate_dc, childVals_append S a b,
+          List.cons_append]
+
+theorem childVals_text (S : Strconv) (s : Str) (ks : List Node) (seq : Nat) :
+    Conv.childVals dc S seq (.text s :: ks) = Conv.childVals dc S seq ks := by
+  simp only [Conv.childVals]
+
+theorem childVals_elem (S : Strconv) (sp name : Str) (attrs : List Attr) (kids ks : List Node)
+    (seq : Nat) :
+    Conv.childVals dc S seq (.elem sp name attrs kids :: ks)
+      = (name, Conv.value dc S (.elem sp name attrs kids)) :: Conv.childVals dc S seq ks := by
+  simp only [Conv.childVals, seqDecorate_dc, elemKey_dc]
+
+theorem textRuns_elems (cfg : DecCfg) : ∀ (ns : List Node) (seen : Bool),
+    (∀ n ∈ ns, isElem n = true) → Conv.textRuns cfg seen ns = []
+  | [], _, _ => rfl
+  | n :: ns, seen, h => by
+      have h1 := h n (List.mem_cons_self ..)
+      have h2 : ∀ m ∈ ns, isElem m = true := fun m hm => h m (List.mem_cons_of_mem _ hm)
+      cases n <;> simp only [isElem, Bool.false_eq_true] at h1
+      simp only [Conv.textRuns, textRuns_elems cfg ns true h2]
+
+mutual
+theorem encTree_isElem (cfg : EncCfg) : ∀ (key : Str) (v : Val) (ns : List Node),
+    encTree cfg key v = .ok ns → ∀ n ∈ ns, isElem n = true
+  | key, .null, ns, h => by simp only [encTree, Except.ok.injEq] at h; subst h; simp [isElem]
+  | key, .str s, ns, h => by simp only [encTree, Except.ok.injEq] at h; subst h; simp [isElem]
+  | key, .bool b, ns, h => by
+      cases b <;> simp only [encTree, fmtV, Except.ok.injEq] at h <;> subst h <;> simp [isElem]
+  | key, .num t, ns, h => by simp only [encTree, fmtV, Except.ok.injEq] at h; subst h; simp [isElem]
+  | key, .list xs, ns, h => by
+      simp only [encTree] at h
+      split at h
+      · simp only [Except.ok.injEq] at h; subst h; simp [isElem]
+      · exact encMembers_isElem cfg key xs ns h
+  | key, .map vv, ns, h => by
+      simp only [encTree] at h
+      repeat' split at h
+      all_goals first
+        | (simp only [Except.ok.injEq] at h; subst h; simp [isElem])
+        | simp at h
+theorem encMembers_isElem (cfg : EncCfg) (key : Str) : ∀ (xs : List Val) (ns : List Node),
+    encMembers cfg key xs = .ok ns → ∀ n ∈ ns, isElem n = true
+  | [], ns, h => by simp only [encMembers, Except.ok.injEq] at h; subst h; simp
+  | x :: xs, ns, h => by
+      simp only [encMembers] at h
+      split at h
+      · simp at h
+      · rename_i a ha
+        split at h
+        · simp at h
+        · rename_i r hr
+          simp only [Except.ok.injEq] at h
+          subst h
+          intro n hn
+          rcases List.mem_append.1 hn with hn | hn
+          · exact encTree_isElem cfg key x a ha n hn
+          · exact encMembers_isElem cfg key xs r hr n hn
+end
+
+theorem encElems_isElem (cfg : EncCfg) : ∀ (kvs : Entries) (ns : List Node),
+    encElems cfg kvs = .ok ns → ∀ n ∈ ns, isElem n = true
+  | [], ns, h => by simp only [encElems, Except.ok.injEq] at h; subst h; simp
+  | (k, v) :: rest, ns, h => by
+      simp only [encElems] at h
+      split at h
+      · exact encElems_isElem cfg rest ns h
+      · split at h
+        · simp at h
+        · rename_i a ha
+          split at h
+          · simp at h
+          · rename_i r hr
+            simp only [Except.ok.injEq] at h
+            subst h
+            intro n hn
+            rcases List.mem_append.1 hn with hn | hn
+            · exact encTree_isElem cfg k v a ha n hn
+            · exact encElems_isElem cfg rest r hr n hn
+
+/-! ### the map clause of `encTree` for the default configuration, uniformly -/
+
+theorem countAttrs_le (cfg : EncCfg) (vv : Entries) : countAttrs cfg vv ≤ vv.length :=
+  List.length_filter_le _ _
+
+theorem countAttrs_cons (cfg : EncCfg) (k : Str) (v : Val) (rest : Entries) :
+    countAttrs cfg ((k, v) :: rest)
+      = (if isAttrK cfg k then 1 else 0) + countAttrs cfg rest := by
+  unfold countAttrs
+  rw [List.filter_cons]
+  split <;> simp <;> omega
+
+theorem encElems_all_attrs (cfg : EncCfg) : ∀ (vv : Entries), countAttrs cfg vv = vv.length →
+    encElems cfg vv = .ok []
+  | [], _ => rfl
+  | (k, v) :: rest, h => by
+      rw [countAttrs_cons] at h
+      have := countAttrs_le cfg rest
+      simp only [List.length_cons] at h
+      by_cases ha : isAttrK cfg k = true
+      · simp only [ha, if_true] at h
+        simp only [encElems, ha, Bool.or_true, if_true]
+        exact encElems_all_attrs cfg rest (by omega)
+      · simp only [ha, Bool.false_eq_true, if_false] at h
+        omega
+
+theorem lookup_all_attrs : ∀ (vv : Entries), countAttrs ec vv = vv.length →
+    lookup ec.textK vv = none
+  | [], _ => rfl
+  | (k, v) :: rest, h => by
+      rw [countAttrs_cons] at h
+      have := countAttrs_le ec rest
+      simp only [List.length_cons] at h
+      by_cases ha : isAttrK ec k = true
+      · simp only [ha, if_true] at h
+        have hk : ¬ ec.textK = k := by
+          intro e; rw [← e, textK_not_attr] at ha; simp at ha
+        simp only [lookup, hk, if_false]
+        exact lookup_all_attrs rest (by omega)
+      · simp only [ha, Bool.false_eq_true, if_false] at h
+        omega
+
+theorem encElems_text_attrs : ∀ (vv : Entries) (tv : Val), countAttrs ec vv + 1 = vv.length →
+    lookup ec.textK vv = some tv → encElems ec vv = .ok []
+  | [], _, h, _ => by simp [countAttrs] at h
+  | (k, v) :: rest, tv, h, hl => by
+      rw [countAttrs_cons] at h
+      have := countAttrs_le ec rest
+      simp only [List.length_cons] at h
+      by_cases ha : isAttrK ec k = true
+      · simp only [ha, if_true] at h
+        have hk : ¬ ec.textK = k := by
+          intro e; rw [← e, textK_not_attr] at ha; simp at ha
+        simp only [lookup, hk, if_false] at hl
+        simp only [encElems, ha, Bool.or_true, if_true]
+        exact encElems_text_attrs rest tv (by omega) hl
+      · simp only [ha, Bool.false_eq_true, if_false, Nat.zero_add] at h
+        have hc : countAttrs ec rest = rest.length := by omega
+        by_cases hk : k = ec.textK
+        · simp only [encElems, hk, decide_true, Bool.true_or, if_true]
+          exact encElems_all_attrs ec rest hc
+        · have hk' : ¬ ec.textK = k := fun e => hk e.symm
+          simp only [lookup, hk', if_false, lookup_all_attrs rest hc] at hl
+          simp at hl
+
+/-- the text child of a map element -/
+def textNodes (vv : Entries) : List Node :=
+  match lookup ec.textK vv with
+  | some tv => [.text (leafText tv)]
+  | none => []
+
+theorem encTree_map_ec (key : Str) (vv : Entries) (ns : List Node)
+    (h : encTree ec key (.map vv) = .ok ns) :
+    ∃ attrs kids, encAttrs ec vv = .ok attrs ∧ encElems ec vv = .ok kids
+      ∧ ns = [.elem [] key attrs (textNodes vv ++ kids)] := by
+  simp only [encTree] at h
+  cases hA : encAttrs ec vv with
+  | error e => rw [hA] at h; simp at h
+  | ok attrs =>
+    rw [hA] at h
+    simp only at h
+    by_cases hn : countAttrs ec vv = vv.length
+    · simp only [hn, if_true, Except.ok.injEq] at h
+      refine ⟨attrs, [], rfl, encElems_all_attrs ec vv hn, ?_⟩
+      simp only [textNodes, lookup_all_attrs vv hn]
+      exact h.symm
+    · simp only [hn, if_false] at h
+      cases hl : lookup ec.textK vv with
+      | some tv =>
+        rw [hl] at h
+        simp only at h
+        cases hf : fmtV tv with
+        | none => rw [hf] at h; simp at h
+        | some txt =>
+          rw [hf] at h
+          simp only at h
+          have htn : textNodes vv = [.text txt] := by
+            simp only [textNodes, hl, leafText, hf, Option.getD_some]
+          by_cases hn1 : countAttrs ec vv + 1 = vv.length
+          · simp only [hn1, if_true, Except.ok.injEq] at h
+            refine ⟨attrs, [], rfl, encElems_text_attrs vv tv hn1 hl, ?_⟩
+            rw [htn]; exact h.symm
+          · simp only [hn1, if_false] at h
+            cases hE : encElems ec vv with
+            | error e => rw [hE] at h; simp at h
+            | ok kids =>
+              rw [hE] at h
+              simp only [Except.ok.injEq] at h
+              refine ⟨attrs, kids, rfl, rfl, ?_⟩
+              rw [htn]; exact h.symm
+      | none =>
+        rw [hl] at h
+        simp only at h
+        cases hE : encElems ec vv with
+        | error e => rw [hE] at h; simp at h
+        | ok kids =>
+          rw [hE] at h
+          simp only [Except.ok.injEq] at h
+          refine ⟨attrs, kids, rfl, rfl, ?_⟩
+          simp only [textNodes, hl]
+          exact h.symm
+
+
+/-! ### decoding the encoder's tree computes the image -/
+
+theorem textK_not_mem_base (vv : Entries) : ec.textK ∉ keys (imageAttrs vv ++ imageElems vv) := by
+  rw [keys_append, List.mem_append]
+  rintro (h | h)
+  · have := (keys_imageAttrs_sub vv _ h).2
+    rw [textK_not_attr] at this; simp at this
+  · have := (keys_imageElems_sub vv _ h).2
+    simp [isElemK] at this
+
+theorem imageAttrs_isEmpty_of_base (vv : Entries)
+    (h : (imageAttrs vv ++ imageElems vv).isEmpty = true) : (imageAttrs vv).isEmpty = true := by
+  cases hA : imageAttrs vv with
+  | nil => rfl
+  | cons _ _ => rw [hA] at h; simp at h
+
+/-- the value of the element built for a map -/
+theorem value_map_node (S : Strconv) (key : Str) (vv : Entries) (attrs : List Attr)
+    (kids : List Node) (hd : (keys vv).Nodup) (hA : encAttrs ec vv = .ok attrs)
+    (hk : ∀ n ∈ kids, isElem n = true) (hcv : Conv.childVals dc S 0 kids = elemPairs vv) :
+    Conv.value dc S (.elem [] key attrs (textNodes vv ++ kids))
+      = finishImage (imageAttrs vv ++ imageElems vv) (imageText vv) := by
+  have hLA := loadAttrs_encAttrs S vv attrs hd hA
+  have hbase : Conv.groupOnto (imageAttrs vv) (elemPairs vv) = imageAttrs vv ++ imageElems vv := by
+    apply groupOnto_elemPairs vv _ hd
+    intro q _ he hm
+    have := (keys_imageAttrs_sub vv q hm).2
+    simp [isElemK, this] at he
+  have hcv' : Conv.childVals dc S 0 (textNodes vv ++ kids) = elemPairs vv := by
+    unfold textNodes
+    split
+    · rw [List.singleton_append, childVals_text, hcv]
+    · rw [List.nil_append, hcv]
+  have hruns_k : ∀ seen, Conv.textRuns dc seen kids = [] := fun seen => textRuns_elems dc kids seen hk
+  cases hl : lookup ec.textK vv with
+  | none =>
+    have htn : textNodes vv = [] := by simp only [textNodes, hl]
+    have hit : imageText vv = none := by simp only [imageText, hl]
+    rw [value_elem_nil dc S _ _ _ _ (by rw [htn, List.nil_append]; exact hruns_k _)]
+    rw [hcv', hLA, hbase, hit]
+    rfl
+  | some tv =>
+    have htn : textNodes vv = [.text (leafText tv)] := by simp only [textNodes, hl]
+    by_cases hte : (trimD (leafText tv)).isEmpty = true
+    · have hit : imageText vv = none := by simp only [imageText, hl, hte, if_true]
+      rw [value_elem_nil dc S _ _ _ _ (by
+        rw [htn, List.singleton_append]
+        simp only [Conv.textRuns, textOf_dc, hte, if_true]
+        exact hruns_k _)]
+      rw [hcv', hLA, hbase, hit]
+      rfl
+    · have hit : imageText vv = some (trimD (leafText tv)) := by
+        simp only [imageText, hl, hte, Bool.false_eq_true, if_false]
+      rw [value_elem_cons dc S _ _ _ _ ⟨trimD (leafText tv), !(!(loadAttrs dc S attrs).isEmpty || dc.asMap)⟩ [] (by
+        rw [htn, List.singleton_append]
+        simp only [Conv.textRuns, textOf_dc, hte, Bool.false_eq_true, if_false, hruns_k])]
+      rw [hcv', hLA, hbase, hit]
+      simp only [cast_dc, finishImage, textK_dc]
+      rw [insert_of_not_mem _ _ _ (textK_not_mem_base vv)]
+      by_cases hb : (imageAttrs vv ++ imageElems vv).isEmpty = true
+      · have ha := imageAttrs_isEmpty_of_base vv hb
+        simp [hb, ha, dc]
+      · simp only [hb, Bool.false_eq_true, if_false]
+        split <;> rfl
+
+
+theorem value_empty (S : Strconv) (key : Str) : Conv.value dc S (.elem [] key [] []) = .str [] := by
+  rw [value_elem_nil dc S _ _ _ _ rfl]; rfl
+
+theorem trimD_nil : trimD [] = [] := rfl
+
+theorem isEmpty_eq_nil {α : Type} {l : List α} (h : l.isEmpty = true) : l = [] := by
+  cases l <;> simp_all
+
+theorem value_leaf (S : Strconv) (key t : Str) :
+    Conv.value dc S (.elem [] key [] [.text t]) = .str (trimD t) := by
+  by_cases hte : (trimD t).isEmpty = true
+  · rw [value_elem_nil dc S _ _ _ _ (by simp only [Conv.textRuns, textOf_dc, hte, if_true])]
+    rw [isEmpty_eq_nil hte]; rfl
+  · rw [value_elem_cons dc S _ _ _ _ ⟨trimD t, true⟩ [] (by
+      simp only [Conv.textRuns, textOf_dc, hte, Bool.false_eq_true, if_false]; rfl)]
+    simp only [cast_dc, if_true]
+    rfl
+
+theorem childVals_single (S : Strconv) (key : Str) (attrs : List Attr) (kids : List Node) :
+    Conv.childVals dc S 0 [.elem [] key attrs kids]
+      = [(key, Conv.value dc S (.elem [] key attrs kids))] := by
+  rw [childVals_elem]; simp only [Conv.childVals]
+
+mutual
+/-- the decoding conventions on the encoder's sibling trees: every sibling is an element
+    named `key`, and their values are, in order, the sibling images of `v` -/
+theorem childVals_encTree (S : Strconv) : ∀ (key : Str) (v : Val) (ns : List Node),
+    v.wf = true → encTree ec key v = .ok ns →
+    Conv.childVals dc S 0 ns = (imageSibs v).map (key, ·)
+  | key, .null, ns, _, h => by
+      simp only [encTree, Except.ok.injEq] at h; subst h
+      rw [childVals_single, value_empty]; rfl
+  | key, .str [], ns, _, h => by
+      simp only [encTree, Except.ok.injEq] at h; subst h
+      simp only [List.isEmpty_nil, if_true]
+      rw [childVals_single, value_empty]; rfl
+  | key, .str (c :: s), ns, _, h => by
+      simp only [encTree, Except.ok.injEq] at h; subst h
+      simp only [List.isEmpty_cons, Bool.false_eq_true, if_false]
+      rw [childVals_single, value_leaf]; rfl
+  | key, .bool b, ns, _, h => by
+      cases b <;> simp only [encTree, fmtV, Except.ok.injEq] at h <;> subst h <;>
+        rw [childVals_single, value_leaf] <;> rfl
+  | key, .num t, ns, _, h => by
+      simp only [encTree, fmtV, Except.ok.injEq] at h; subst h
+      rw [childVals_single, value_leaf]; rfl
+  | key, .list xs, ns, hwf, h => by
+      simp only [Val.wf] at hwf
+      simp only [encTree] at h
+      simp only [imageSibs]
+      split at h
+      · rename_i he
+        simp only [Except.ok.injEq] at h; subst h
+        simp only [he, if_true]
+        rw [childVals_single, value_empty]; rfl
+      · rename_i he
+        simp only [he, Bool.false_eq_true, if_false]
+        exact childVals_encMembers S key xs ns hwf h
+  | key, .map vv, ns, hwf, h => by
+      simp only [Val.wf, Bool.and_eq_true] at hwf
+      obtain ⟨attrs, kids, hA, hE, rfl⟩ := encTree_map_ec key vv ns h
+      have hd := (distinctKeys_iff vv).1 hwf.2
+      rw [childVals_single, value_map_node S key vv attrs kids hd hA (encElems_isElem ec vv kids hE)
+        (childVals_encElems S vv kids hwf.1 hE)]
+      simp only [imageSibs, List.map_cons, List.map_nil]
+theorem childVals_encMembers (S : Strconv) (key : Str) : ∀ (xs : List Val) (ns : List Node),
+    Val.wfList xs = true → encMembers ec key xs = .ok ns →
+    Conv.childVals dc S 0 ns = (imageMembers xs).map (key, ·)
+  | [], ns, _, h => by
+      simp only [encMembers, Except.ok.injEq] at h; subst h
+      simp only [imageMembers, List.map_nil, Conv.childVals]
+  | x :: xs, ns, hwf, h => by
+      simp only [Val.wfList, Bool.and_eq_true] at hwf
+      simp only [encMembers] at h
+      split at h
+      · simp at h
+      · rename_i a ha
+        split at h
+        · simp at h
+        · rename_i r hr
+          simp only [Except.ok.injEq] at h
+          subst h
+          rw [childVals_append, childVals_encTree S key x a hwf.1 ha,
+            childVals_encMembers S key xs r hwf.2 hr]
+          simp only [imageMembers, List.map_append]
+theorem childVals_encElems (S : Strconv) : ∀ (kvs : Entries) (ns : List Node),
+    Val.wfEntries kvs = true → encElems ec kvs = .ok ns →
+    Conv.childVals dc S 0 ns = elemPairs kvs
+  | [], ns, _, h => by
+      simp only [encElems, Except.ok.injEq] at h; subst h
+      simp only [elemPairs, Conv.childVals]
+  | (k, v) :: rest, ns, hwf, h => by
+      simp only [Val.wfEntries, Bool.and_eq_true] at hwf
+      simp only [encElems] at h
+      simp only [elemPairs]
+      split at h
+      · rename_i hk
+        simp only [hk, if_true]
+        exact childVals_encElems S rest ns hwf.2 h
+      · rename_i hk
+        simp only [hk, Bool.false_eq_true, if_false]
+        split at h
+        · simp at h
+        · rename_i a ha
+          split at h
+          · simp at h
+          · rename_i r hr
+            simp only [Except.ok.injEq] at h
+            subst h
+            rw [childVals_append, childVals_encTree S k v a hwf.1 ha,
+              childVals_encElems S rest r hwf.2 hr]
+end
+
+/-- grouping the siblings under their common key -/
+theorem siblingsValue_encTree (S : Strconv) (key : Str) (v : Val) (ns : List Node)
+    (hwf : v.wf = true) (h : encTree ec key v = .ok ns) :
+    siblingsValue dc S ns = imageUnder key v := by
+  unfold siblingsValue imageUnder image
+  rw [childVals_encTree S key v ns hwf h]
+  have := groupOnto_block [] key (imageSibs v) [] (imageSibs_ne_nil v) (by simp [keys]) (by simp [keys])
+  rw [List.append_nil] at this
+  rw [this, groupOnto_nil]
+  rfl
+
 end Mxj.Enc
